@@ -117,6 +117,7 @@ class LogicBlock(SystemWideDevice, ModeDevice):
                 self.value = self.get_start_value()
             else:
                 self._state = player[self.player_state_variable]
+                self._notify_state_swap(None, self._state)
         else:
             self._state = LogicBlockState()
             self.value = self.get_start_value()
@@ -130,7 +131,15 @@ class LogicBlock(SystemWideDevice, ModeDevice):
         """Unset internal state to prevent leakage."""
         super().device_removed_from_mode(mode)
         self.delay.remove("timeout")
+        old_state = self._state
         self._state = None
+        self._notify_state_swap(old_state, None)
+
+    def _notify_state_swap(self, old_state, new_state):
+        """Tell subscribers that all monitored attributes may have changed because the state object was swapped."""
+        for attribute in ("value", "enabled", "completed"):
+            self.notify_virtual_change(attribute, getattr(old_state, attribute, None),     # type: ignore
+                                       getattr(new_state, attribute, None))
 
     @property
     def value(self):
